@@ -125,6 +125,7 @@ def subst(tpl, env):
     {'$lit': x}       -> x unchanged
     {'$state': path}  -> the value the probe read at that path of states
     {'$stateref': path} -> the very object found there (no copy)
+    {'$key': prefix}  -> '<prefix><invocation number>'
     """
     if isinstance(tpl, str):
         if tpl == '$tok':
@@ -151,6 +152,8 @@ def subst(tpl, env):
             return build_tree(tpl['$probes'])
         if '$lit' in tpl:
             return copy.deepcopy(tpl['$lit'])
+        if '$key' in tpl:
+            return f"{tpl['$key']}{env.n}"
         if '$stateref' in tpl:
             v = env.states
             for k in tpl['$stateref']:
